@@ -697,12 +697,15 @@ Definition okb (c : case) : bool :=
   | _, _ => false
   end.
 
-(** Known-finding class: the optimized expression raises the generation-bound error while
-    the unoptimized one does not (fold_generation adds two lower bounds past [u32::MAX]). *)
+(** Known-finding class (fold-generation-lower-bound-overflow): optimized and unoptimized
+    evaluation disagree on whether the generation-bound error is raised.  [fold_generation]
+    adds two lower bounds past [u32::MAX] (optimized fails, unoptimized is empty), or folds
+    an out-of-range lower bound away together with an empty outer range (unoptimized fails,
+    optimized is empty).  The sets agree (C19_optimize_sound); only the error differs. *)
 Definition known_class (c : case) : bool :=
   let W := case_world c in
-  berr W (resolve (case_ctx c) (optimize (c_expr c)))
-  && negb (berr W (resolve (case_ctx c) (rrc (c_expr c)))).
+  xorb (berr W (resolve (case_ctx c) (optimize (c_expr c))))
+       (berr W (resolve (case_ctx c) (rrc (c_expr c)))).
 
 Definition check_case (c : case) : N :=
   let W := case_world c in
